@@ -89,13 +89,19 @@ func (cl *CheckpointList) Latest() *Checkpoint {
 	return cl.checkpoints[len(cl.checkpoints)-1]
 }
 
-// RetainOnly keeps only the checkpoints with the specified IDs in the list. Other checkpoints
+// RetainOnly keeps the checkpoints with the specified IDs and any newer ones in the list. Other checkpoints
 // aren't really removed until the next successful Save.
 func (cl *CheckpointList) RetainOnly(ids []uint64) {
 	idsSet := ds.SetOf(ids...)
+	var newestID uint64
+	for _, id := range ids {
+		newestID = max(newestID, id)
+	}
 	nextCheckpoints := make([]*Checkpoint, 0, len(ids))
 	for _, cp := range cl.checkpoints {
-		if idsSet.Has(cp.ID) {
+		// A checkpoint newer than every retained ID was taken after the caller
+		// decided what to retain (it may still be saving), so it isn't obsolete.
+		if idsSet.Has(cp.ID) || cp.ID > newestID {
 			nextCheckpoints = append(nextCheckpoints, cp)
 		} else {
 			cl.checkpointsPendingRemoval = append(cl.checkpointsPendingRemoval, cp)
